@@ -465,7 +465,12 @@ class Part(object):
 
     def _time_interpolator(self, quarter=False, inv=False, musical_beat=False):
         if len(self._points) < 2:
-            return lambda x: np.zeros(len(x))
+            # no stretch of time to measure: every position maps to zero and zero maps
+            # back to the only time point; scalars and arrays are accepted alike
+            t_only = float(self._points[0].t) if len(self._points) == 1 else 0.0
+            if inv:
+                return lambda x: np.full(np.shape(x), t_only)
+            return lambda x: np.zeros(np.shape(x))
 
         keypoints = defaultdict(lambda: [None, None])
         _ = keypoints[self.first_point.t]
